@@ -530,8 +530,18 @@ def check(ctx, fx):
             nw += 1
             txt = X.show(X.strip(store))
             q = f["qname"]
+            # a snapshot restore: the stored value is a local whose only initialiser is the port member itself
+            snap = False
+            inits_f = C.single_inits(f)
+            for m in X.walk(store):
+                if m.get("k") == "ref" and m.get("kind") == "local" and inits_f.get(m.get("id")) is not None:
+                    i0 = X.strip(inits_f[m["id"]])
+                    while isinstance(i0, dict) and i0.get("k") == "construct" and len(i0.get("args", [])) == 1:
+                        i0 = X.strip(i0["args"][0])
+                    if isinstance(i0, dict) and i0.get("k") == "member" and i0.get("field") == "port":
+                        snap = True
             ok = ("nullopt" in txt or "omitted" in txt or (q.endswith("::parse_port")) or "base_url" in txt
-                  or txt in ("previous_port", "input") or "previous_port" in txt)
+                  or txt in ("previous_port", "input") or "previous_port" in txt or snap)
             ctx.check("I4", "%s stores port `%s`" % (q, txt[:40]), ok, "allowed writer",
                       "%s stores a port value (`%s`) outside parse_port's default-port test / base copy / snapshot restore: "
                       "a scheme's default port or an unvalidated value could be stored" % (q, txt[:60]),
